@@ -1195,4 +1195,946 @@ theorem failsWith_of_missing {ctx : Ctx} {x : Tgt} {f : Str} (h : Missing ctx x 
     simp only [evalFirst, h1, htr, h2]
     simp
 
+/-! ### sentence terminators -/
+
+/-- empty, or the last atom is a terminator -/
+def TermF (s : Flat) : Prop := s = [] ∨ Flat.terminated Gen.terminators s = true
+
+theorem terminated_nil (T : List Str) : Flat.terminated T [] = false := rfl
+
+theorem terminated_append_right (T : List Str) (a b : Flat) (hb : b ≠ []) :
+    Flat.terminated T (a ++ b) = Flat.terminated T b := by
+  simp only [Flat.terminated, getLast?_append_of_ne_nil a b hb]
+
+theorem terminated_push (T : List Str) (m : List Markup) (s : Flat) :
+    Flat.terminated T (Flat.push m s) = Flat.terminated T s := by
+  simp only [Flat.terminated, Flat.push, List.getLast?_map]
+  cases s.getLast? with
+  | none => rfl
+  | some x => obtain ⟨a, st⟩ := x; cases a <;> rfl
+
+theorem ne_nil_of_terminated {T : List Str} {s : Flat} (h : Flat.terminated T s = true) : s ≠ [] := by
+  intro hs; rw [hs, terminated_nil] at h; cases h
+
+theorem TermF.append {a b : Flat} (ha : TermF a) (hb : TermF b) : TermF (a ++ b) := by
+  rcases hb with rfl | hb
+  · simpa using ha
+  · exact Or.inr (by rw [terminated_append_right _ _ _ (ne_nil_of_terminated hb)]; exact hb)
+
+theorem TermF.push {m : List Markup} {s : Flat} (h : TermF s) : TermF (Flat.push m s) := by
+  rcases h with rfl | h
+  · exact Or.inl rfl
+  · exact Or.inr (by rw [terminated_push]; exact h)
+
+theorem terminated_iff_termF (r : RT) : Terminated r ↔ TermF (sem [] r) := by
+  unfold Terminated TermF
+  constructor
+  · rintro (h | h)
+    · exact Or.inl (sem_nil_of_len _ _ h)
+    · exact Or.inr h
+  · rintro (h | h)
+    · left; have := sem_length r []; rw [h] at this; simpa using this.symm
+    · exact Or.inr h
+
+theorem termF_semL {ps : List RT} (h : ∀ p ∈ ps, Terminated p) : TermF (semL [] ps) := by
+  induction ps with
+  | nil => exact Or.inl rfl
+  | cons p ps ih =>
+    simp only [semL]
+    exact ((terminated_iff_termF p).1 (h p (by simp))).append (ih fun q hq => h q (List.mem_cons_of_mem _ hq))
+
+theorem terminated_mk (k : Kind) {ps : List RT} (h : ∀ p ∈ ps, Terminated p) : Terminated (mk k ps) := by
+  rw [terminated_iff_termF, sem_mk, sem, semL_ctx]
+  exact (termF_semL h).push
+
+theorem terminated_of_len_zero {r : RT} (h : len r = 0) : Terminated r := Or.inl h
+
+/-- `endswith` is sound for one-character suffixes, on any tree -/
+theorem terminated_of_endsWith (T : List Str) (hT : ∀ x ∈ T, x.length = 1) (t : RT) :
+    ∀ ctx, endsWith T t = true → Flat.terminated T (sem ctx t) = true := by
+  induction t using RT.induct with
+  | hstr s => intro ctx h; rw [terminated_str, ← any_suffix_single T hT]; simpa [endsWith] using h
+  | hsym n => intro ctx h; simp [endsWith] at h
+  | hnode k ps ih =>
+    intro ctx h
+    simp only [endsWith] at h
+    simp only [sem]
+    generalize ctx ++ k.markup = c
+    induction ps with
+    | nil => simp [endsWithL] at h
+    | cons p ps ih2 =>
+      cases ps with
+      | nil =>
+        simp only [endsWithL] at h
+        simp only [semL, List.append_nil]
+        exact ih p (by simp) c h
+      | cons q r =>
+        simp only [endsWithL] at h
+        have := ih2 (fun x hx => ih x (by simp [hx])) h
+        rw [semL, terminated_append_right _ _ _ (ne_nil_of_terminated this)]
+        exact this
+
+theorem terminators_single : ∀ x ∈ Gen.terminators, x.length = 1 := by decide
+
+theorem terminated_addPeriodT (t : RT) : Terminated (addPeriodT t) := by
+  unfold addPeriodT RT.addPeriod
+  split
+  · rename_i hc
+    right
+    have hdot : Flat.terminated Gen.terminators [((Atom.ch '.'), ([] : List Markup))] = true := by decide
+    cases t with
+    | str s =>
+      simp only [append, sem_add, periodStr, sem, List.map_cons, List.map_nil]
+      rw [terminated_append_right _ _ _ (by simp)]; exact hdot
+    | sym n =>
+      simp only [append, sem_add, periodStr, sem, List.map_cons, List.map_nil]
+      rw [terminated_append_right _ _ _ (by simp)]; exact hdot
+    | node k ps =>
+      rw [sem_append_node]
+      simp only [periodStr, sem, List.map_cons, List.map_nil]
+      rw [terminated_append_right _ _ _ (by simp)]
+      simp only [Flat.terminated, List.getLast?_singleton]; decide
+  · rename_i hc
+    simp only [Bool.and_eq_true, bne_iff_ne, ne_eq, Bool.not_eq_true', not_and, Bool.not_eq_false] at hc
+    by_cases hl : len t = 0
+    · exact Or.inl hl
+    · exact Or.inr (terminated_of_endsWith _ terminators_single t [] (hc hl))
+
+theorem joinWith_terminated (sep : Flat) : ∀ (l : List Flat), l ≠ [] →
+    (∀ s ∈ l, Flat.terminated Gen.terminators s = true) →
+    Flat.terminated Gen.terminators (joinWith sep l) = true := by
+  intro l
+  induction l with
+  | nil => intro h; exact absurd rfl h
+  | cons x l ih =>
+    intro _ hall
+    cases l with
+    | nil => simpa [joinWith] using hall x (by simp)
+    | cons y r =>
+      have := ih (by simp) (fun s hs => hall s (List.mem_cons_of_mem _ hs))
+      simp only [joinWith]
+      rw [terminated_append_right _ _ _ (ne_nil_of_terminated this)]
+      exact this
+
+theorem terminated_of_truthy {p : RT} (ht : truthy p = true) (h : Terminated p) :
+    Flat.terminated Gen.terminators (sem [] p) = true := by
+  rcases h with h | h
+  · simp [truthy, h] at ht
+  · exact h
+
+theorem getLast!_mem {α : Type} [Inhabited α] {l : List α} (h : l ≠ []) : l.getLast! ∈ l := by
+  rw [List.getLast!_eq_getLast?_getD]
+  cases hl : l.getLast? with
+  | none => rw [List.getLast?_eq_none_iff] at hl; exact absurd hl h
+  | some x => simpa using List.mem_of_getLast? hl
+
+theorem terminated_joinParts (sep sep2 lastSep : RT) {parts : List RT} (h : ∀ p ∈ parts, Terminated p) :
+    Terminated (joinParts sep sep2 lastSep parts) := by
+  unfold joinParts
+  have hf : ∀ p ∈ parts.filter truthy, Flat.terminated Gen.terminators (sem [] p) = true := by
+    intro p hp
+    rw [List.mem_filter] at hp
+    exact terminated_of_truthy hp.2 (h p hp.1)
+  generalize parts.filter truthy = ps at hf
+  simp only
+  split
+  · exact terminated_mk _ fun p hp => Or.inr (hf p hp)
+  · rename_i hlen
+    split
+    · right
+      rw [sem_join]
+      apply joinWith_terminated
+      · intro hnil; rw [List.map_eq_nil_iff] at hnil; subst hnil; simp at hlen
+      · intro s hs
+        obtain ⟨p, hp, rfl⟩ := List.mem_map.1 hs
+        exact hf p hp
+    · right
+      rw [sem_join]
+      simp only [List.map_cons, List.map_nil, joinWith]
+      have hne : ps ≠ [] := by intro h0; subst h0; simp at hlen
+      have := hf _ (getLast!_mem hne)
+      rw [terminated_append_right _ _ _ (ne_nil_of_terminated this)]
+      exact this
+
+theorem terminated_sentenceText (cf cap : Bool) (sep : RT) (parts : List RT) :
+    Terminated (sentenceText cf cap true sep parts) := by
+  simp only [sentenceText, if_true]
+  exact terminated_addPeriodT _
+
+theorem eval_terminated (ctx : Ctx) : ∀ fuel,
+    (∀ t r, endsInSentence t = true → eval fuel ctx t = .ok r → Terminated r) ∧
+    (∀ ts rs, endsInSentenceL ts = true → evalList fuel ctx ts = .ok rs → ∀ r ∈ rs, Terminated r) ∧
+    (∀ ts r, endsInSentenceL ts = true → evalFirst fuel ctx ts = .ok r → Terminated r) := by
+  intro fuel
+  induction fuel with
+  | zero => refine ⟨?_, ?_, ?_⟩ <;> intro t r _ h <;> simp [eval, evalList, evalFirst] at h
+  | succ n ih =>
+    obtain ⟨ih1, ih2, ih3⟩ := ih
+    refine ⟨?_, ?_, ?_⟩
+    · intro t r he h
+      cases t with
+      | lit x =>
+        simp only [eval, Except.ok.injEq] at h; subst h
+        simp only [endsInSentence, Bool.or_eq_true, beq_iff_eq] at he
+        exact he
+      | raw s => simp [endsInSentence] at he
+      | join s s2 ls cs =>
+        simp only [eval] at h
+        split at h
+        · cases h
+        · rename_i parts hp
+          simp only [Except.ok.injEq] at h; subst h
+          exact terminated_joinParts _ _ _ (ih2 cs parts (by simpa [endsInSentence] using he) hp)
+      | together lt cs => simp [endsInSentence] at he
+      | sentence cf cap ap sep cs =>
+        rw [eval_sentence] at h
+        split at h
+        · cases h
+        · simp only [Except.ok.injEq] at h; subst h
+          simp only [endsInSentence] at he; subst he
+          exact terminated_sentenceText _ _ _ _
+      | field name fn raw => simp [endsInSentence] at he
+      | names role s s2 ls => simp [endsInSentence] at he
+      | optional cs =>
+        simp only [eval] at h
+        split at h
+        · simp only [Except.ok.injEq] at h; subst h
+          exact terminated_of_len_zero (by simp [len_mk, lenL])
+        · cases h
+        · rename_i parts hp
+          simp only [Except.ok.injEq] at h; subst h
+          exact terminated_mk _ (ih2 cs parts (by simpa [endsInSentence] using he) hp)
+      | firstOf cs =>
+        simp only [eval] at h
+        exact ih3 cs r (by simpa [endsInSentence] using he) h
+      | tag name cs =>
+        simp only [eval] at h
+        split at h
+        · cases h
+        · rename_i parts hp
+          simp only [Except.ok.injEq] at h; subst h
+          exact terminated_mk _ (ih2 cs parts (by simpa [endsInSentence] using he) hp)
+      | href url ext cs =>
+        rw [eval_href] at h
+        split at h
+        · cases h
+        · rename_i parts hp
+          split at h
+          · cases h
+          · simp only [Except.ok.injEq] at h; subst h
+            exact terminated_mk _ (ih2 cs parts (by simpa [endsInSentence] using he) hp)
+      | namePart before tie abbr cs => simp [endsInSentence] at he
+    · intro ts rs he h
+      cases ts with
+      | nil => simp only [evalList, Except.ok.injEq] at h; subst h; simp
+      | cons t ts =>
+        simp only [endsInSentenceL, Bool.and_eq_true] at he
+        simp only [evalList] at h
+        split at h
+        · cases h
+        · rename_i r hr
+          split at h
+          · cases h
+          · rename_i rs' hrs
+            simp only [Except.ok.injEq] at h; subst h
+            intro x hx
+            rcases List.mem_cons.1 hx with rfl | hx
+            · exact ih1 t _ he.1 hr
+            · exact ih2 ts rs' he.2 hrs x hx
+    · intro ts r he h
+      cases ts with
+      | nil =>
+        simp only [evalFirst, Except.ok.injEq] at h; subst h
+        exact terminated_of_len_zero (by simp [len_mk, lenL])
+      | cons t ts =>
+        simp only [endsInSentenceL, Bool.and_eq_true] at he
+        simp only [evalFirst] at h
+        split at h
+        · cases h
+        · rename_i r' hr
+          split at h
+          · simp only [Except.ok.injEq] at h; subst h
+            exact ih1 t _ he.1 hr
+          · exact ih3 ts r he.2 h
+
+/-! ### protected text -/
+
+theorem protAtoms_append (a b : Flat) : protAtoms (a ++ b) = protAtoms a ++ protAtoms b := by
+  simp [protAtoms]
+
+theorem protAtoms_mapCase (f : Char → Char) (s : Flat) : protAtoms (Flat.mapCase f s) = protAtoms s := by
+  induction s with
+  | nil => rfl
+  | cons x s ih =>
+    obtain ⟨a, st⟩ := x
+    simp only [protAtoms, Flat.mapCase, List.map_cons, List.filter_cons] at ih ⊢
+    cases a with
+    | sym n => simp only; rw [ih]
+    | ch c =>
+      simp only
+      by_cases hp : Flat.isProt st = true
+      · simp only [hp, if_true]; rw [ih]
+      · simp only [hp]; rw [ih]; simp [hp]
+
+theorem take_one_append_drop_one (s : Flat) :
+    strSlice s none (some 1) ++ strSlice s (some 1) none = s := by
+  have h1 := strSlice_take s 1
+  have h2 := strSlice_drop s 1
+  simp only [Int.natCast_one] at h1 h2
+  rw [h1, h2, List.take_append_drop]
+
+theorem protAtoms_lowerT (t : RT) : protAtoms (sem [] (lowerT t)) = protAtoms (sem [] t) := by
+  rw [sem_lowerT, protAtoms_mapCase]
+
+theorem protAtoms_upperT (t : RT) : protAtoms (sem [] (upperT t)) = protAtoms (sem [] t) := by
+  rw [sem_upperT, protAtoms_mapCase]
+
+theorem sem_capitalize (t : RT) :
+    sem [] (capitalize t) = sem [] t ∨
+    sem [] (capitalize t) = Flat.mapCase upperC (strSlice (sem [] t) none (some 1)) ++
+      Flat.mapCase lowerC (strSlice (sem [] t) (some 1) none) := by
+  have h := congrArg Abs.atoms (abs_capitalize t)
+  unfold Abs.capitalize at h
+  by_cases hp : (RT.abs t).top = Top.multi Kind.prot
+  · rw [if_pos hp] at h; exact Or.inl h
+  · rw [if_neg hp] at h; exact Or.inr h
+
+theorem sem_capfirst (t : RT) :
+    sem [] (capfirst t) = sem [] t ∨
+    sem [] (capfirst t) = Flat.mapCase upperC (strSlice (sem [] t) none (some 1)) ++
+      strSlice (sem [] t) (some 1) none := by
+  have h := congrArg Abs.atoms (abs_capfirst t)
+  unfold Abs.capfirst at h
+  by_cases hp : (RT.abs t).top = Top.multi Kind.prot
+  · rw [if_pos hp] at h; exact Or.inl h
+  · rw [if_neg hp] at h; exact Or.inr h
+
+theorem protAtoms_capitalize (t : RT) : protAtoms (sem [] (capitalize t)) = protAtoms (sem [] t) := by
+  rcases sem_capitalize t with h | h
+  · rw [h]
+  · rw [h, protAtoms_append, protAtoms_mapCase, protAtoms_mapCase, ← protAtoms_append, take_one_append_drop_one]
+
+theorem protAtoms_capfirst (t : RT) : protAtoms (sem [] (capfirst t)) = protAtoms (sem [] t) := by
+  rcases sem_capfirst t with h | h
+  · rw [h]
+  · rw [h, protAtoms_append, protAtoms_mapCase, ← protAtoms_append, take_one_append_drop_one]
+
+/-- a `Text` object -/
+def IsText (r : RT) : Prop := ∃ ps, r = .node .text ps
+
+theorem isText_mk (ps : List RT) : IsText (mk .text ps) := ⟨_, rfl⟩
+theorem isText_join (sep : RT) (ps : List RT) : IsText (RT.join sep ps) := ⟨_, rfl⟩
+theorem isText_add (a b : RT) : IsText (add a b) := ⟨_, rfl⟩
+
+theorem isText_joinParts (sep sep2 lastSep : RT) (parts : List RT) : IsText (joinParts sep sep2 lastSep parts) := by
+  unfold joinParts
+  simp only
+  split
+  · exact isText_mk _
+  · split
+    · exact isText_join _ _
+    · exact isText_join _ _
+
+theorem isText_capfirst {r : RT} (h : IsText r) : IsText (capfirst r) := by
+  obtain ⟨ps, rfl⟩ := h; exact isText_add _ _
+
+theorem isText_capitalize {r : RT} (h : IsText r) : IsText (capitalize r) := by
+  obtain ⟨ps, rfl⟩ := h; exact isText_add _ _
+
+/-- the period `add_period` appends to a `Text` is not protected -/
+theorem protAtoms_addPeriodT {r : RT} (h : IsText r) : protAtoms (sem [] (addPeriodT r)) = protAtoms (sem [] r) := by
+  obtain ⟨ps, rfl⟩ := h
+  unfold addPeriodT RT.addPeriod
+  split
+  · rw [sem_append_node, protAtoms_append]
+    simp [periodStr, sem, Kind.markup, protAtoms, Flat.isProt]
+  · rfl
+
+theorem protAtoms_sentenceText (cf cap ap : Bool) (sep : RT) (parts : List RT) :
+    protAtoms (sem [] (sentenceText cf cap ap sep parts)) = protAtoms (sem [] (joinParts sep sep sep parts)) := by
+  have h0 := isText_joinParts sep sep sep parts
+  simp only [sentenceText]
+  generalize joinParts sep sep sep parts = x at h0 ⊢
+  have h1 : IsText (if cf = true then capfirst x else x) ∧
+      protAtoms (sem [] (if cf = true then capfirst x else x)) = protAtoms (sem [] x) := by
+    split
+    · exact ⟨isText_capfirst h0, protAtoms_capfirst x⟩
+    · exact ⟨h0, rfl⟩
+  generalize (if cf = true then capfirst x else x) = y at h1 ⊢
+  have h2 : IsText (if cap = true then capitalize y else y) ∧
+      protAtoms (sem [] (if cap = true then capitalize y else y)) = protAtoms (sem [] x) := by
+    split
+    · exact ⟨isText_capitalize h1.1, by rw [protAtoms_capitalize, h1.2]⟩
+    · exact h1
+  generalize (if cap = true then capitalize y else y) = z at h2 ⊢
+  split
+  · rw [protAtoms_addPeriodT h2.1, h2.2]
+  · exact h2.2
+
+/-! ### `Text.from_latex` -/
+
+def chars (d : Nat) (s : Str) : Flat := s.map fun c => (Atom.ch c, List.replicate d Markup.prot)
+
+theorem chars_append (d : Nat) (a b : Str) : chars d (a ++ b) = chars d a ++ chars d b := by simp [chars]
+
+theorem sem_str_prot (d : Nat) (s : Str) : sem (List.replicate d Markup.prot) (.str s) = chars d s := rfl
+
+theorem latexParts_rest_nil : ∀ (fuel : Nat) (cur v : Str) (parts : List RT) (rest : Str),
+    latexParts fuel 0 cur v = .ok (parts, rest) → rest = [] := by
+  intro fuel
+  induction fuel with
+  | zero => intro cur v parts rest h; simp [latexParts] at h
+  | succ n ih =>
+    intro cur v parts rest h
+    cases v with
+    | nil =>
+      simp only [latexParts, bne_self_eq_false, Bool.false_eq_true, if_false, Except.ok.injEq, Prod.mk.injEq] at h
+      exact h.2.symm
+    | cons c r =>
+      simp only [latexParts] at h
+      split at h
+      · split at h
+        · cases h
+        · split at h
+          · cases h
+          · rename_i more rest' h2
+            simp only [Except.ok.injEq, Prod.mk.injEq] at h
+            rw [← h.2]; exact ih _ _ _ _ h2
+      · split at h
+        · simp at h
+        · exact ih _ _ _ _ h
+
+theorem latexParts_sem : ∀ (fuel level : Nat) (cur v : Str) (parts : List RT) (rest : Str),
+    latexParts fuel level cur v = .ok (parts, rest) →
+    ∀ d, semL (List.replicate d Markup.prot) parts ++ flatLatex (d - 1) rest = chars d cur.reverse ++ flatLatex d v := by
+  intro fuel
+  induction fuel with
+  | zero => intro level cur v parts rest h; simp [latexParts] at h
+  | succ n ih =>
+    intro level cur v parts rest h d
+    cases v with
+    | nil =>
+      simp only [latexParts] at h
+      split at h
+      · cases h
+      · simp only [Except.ok.injEq, Prod.mk.injEq] at h
+        obtain ⟨rfl, rfl⟩ := h
+        simp only [flatLatex, List.append_nil]
+        split
+        · rename_i he
+          have : cur = [] := by simpa using he
+          subst this; rfl
+        · simp only [semL, List.append_nil]; rfl
+    | cons c r =>
+      simp only [latexParts] at h
+      split at h
+      · rename_i hc
+        split at h
+        · cases h
+        · rename_i inner rest1 h1
+          split at h
+          · cases h
+          · rename_i more rest' h2
+            simp only [Except.ok.injEq, Prod.mk.injEq] at h
+            obtain ⟨rfl, rfl⟩ := h
+            have e1 := ih _ _ _ _ _ h1 (d + 1)
+            have e2 := ih _ _ _ _ _ h2 d
+            simp only [List.reverse_nil, chars, List.map_nil, List.nil_append, Nat.add_sub_cancel] at e1 e2
+            simp only [semL, sem_mk, sem, Kind.markup, flatLatex, hc, if_true]
+            have hrep : List.replicate d Markup.prot ++ [Markup.prot] = List.replicate (d + 1) Markup.prot := by
+              rw [List.replicate_succ']
+            rw [hrep, List.append_assoc, List.append_assoc, e2, ← e1]
+            simp [chars]
+      · rename_i hc
+        split at h
+        · rename_i hc2
+          split at h
+          · cases h
+          · simp only [Except.ok.injEq, Prod.mk.injEq] at h
+            obtain ⟨rfl, rfl⟩ := h
+            simp only [semL, List.append_nil, flatLatex, hc2, if_true]
+            rfl
+        · rename_i hc2
+          have e := ih _ _ _ _ _ h d
+          rw [e]
+          simp only [List.reverse_cons, chars_append, flatLatex, hc, hc2, if_false, List.append_assoc]
+          rfl
+
+/-- what `Text.from_latex` denotes -/
+theorem sem_fromLatex {v : Str} {r : RT} (h : fromLatex v = .ok r) : sem [] r = flatLatex 0 v := by
+  unfold fromLatex at h
+  split at h
+  · cases h
+  · rename_i parts rest hp
+    simp only [Except.ok.injEq] at h; subst h
+    have hr := latexParts_rest_nil _ _ _ _ _ hp
+    subst hr
+    have := latexParts_sem _ _ _ _ _ _ hp 0
+    simpa [sem_mk, sem, Kind.markup, chars, flatLatex] using this
+
+theorem toStr_flatLatex (d : Nat) (v : Str) : Flat.toStr (flatLatex d v) = stripBraces v := by
+  induction v generalizing d with
+  | nil => rfl
+  | cons c r ih =>
+    simp only [flatLatex, stripBraces, List.filter_cons]
+    by_cases h1 : c = '{'
+    · simp only [h1, if_true]; rw [ih]; simp [stripBraces]
+    · by_cases h2 : c = '}'
+      · simp only [h2, if_true]; rw [if_neg (by decide), ih]; simp [stripBraces]
+      · simp only [h1, h2, if_false]
+        have : (c != '{' && c != '}') = true := by simp [h1, h2]
+        rw [this, if_pos rfl]
+        simp only [Flat.toStr, List.flatMap_cons] at ih ⊢
+        rw [ih]; simp [stripBraces]
+
+theorem toStr_fromLatex {v : Str} {r : RT} (h : fromLatex v = .ok r) : toStr r = stripBraces v := by
+  rw [← toStr_sem r [], sem_fromLatex h, toStr_flatLatex]
+
+/-! ### field coverage -/
+
+theorem toStrL_eq_flatten (ps : List RT) : toStrL ps = (ps.map toStr).flatten := by
+  induction ps with
+  | nil => rfl
+  | cons p ps ih => simp [toStrL, ih]
+
+theorem toStr_mk (k : Kind) (ps : List RT) : toStr (mk k ps) = toStrL ps := by
+  rw [← toStr_sem (mk k ps) [], sem_mk, toStr_sem]; rfl
+
+theorem toStr_infix_toStrL {p : RT} {ps : List RT} (h : p ∈ ps) : toStr p <:+: toStrL ps := by
+  rw [toStrL_eq_flatten]
+  exact List.infix_of_mem_flatten (List.mem_map.2 ⟨p, h, rfl⟩)
+
+theorem toStr_infix_mk (k : Kind) {p : RT} {ps : List RT} (h : p ∈ ps) : toStr p <:+: toStr (mk k ps) := by
+  rw [toStr_mk]; exact toStr_infix_toStrL h
+
+theorem mem_joinedList_of_mem (sep : RT) {p : RT} : ∀ {l : List RT}, p ∈ l → p ∈ joinedList sep l := by
+  intro l
+  induction l with
+  | nil => intro h; cases h
+  | cons x l ih =>
+    intro h
+    cases l with
+    | nil => simpa [joinedList] using h
+    | cons y r =>
+      simp only [joinedList]
+      rcases List.mem_cons.1 h with rfl | h
+      · simp
+      · exact List.mem_cons_of_mem _ (List.mem_cons_of_mem _ (ih h))
+
+theorem toStr_infix_join (sep : RT) {p : RT} {ps : List RT} (h : p ∈ ps) : toStr p <:+: toStr (RT.join sep ps) :=
+  toStr_infix_mk _ (mem_joinedList_of_mem sep h)
+
+theorem toStr_nil_of_falsy {p : RT} (h : truthy p = false) : toStr p = [] := by
+  have hl : len p = 0 := by simpa [truthy] using h
+  rw [← toStr_sem p [], sem_nil_of_len _ _ hl]; rfl
+
+theorem dropLast_append_getLast! {α : Type} [Inhabited α] {l : List α} (h : l ≠ []) :
+    l.dropLast ++ [l.getLast!] = l := by
+  have h1 : l.getLast! = l.getLast h := by
+    rw [List.getLast!_eq_getLast?_getD, List.getLast?_eq_some_getLast h]; rfl
+  rw [h1]; exact List.dropLast_concat_getLast h
+
+theorem mem_dropLast_or_getLast! {α : Type} [Inhabited α] {l : List α} {x : α} (h : x ∈ l) :
+    x ∈ l.dropLast ∨ x = l.getLast! := by
+  have hne : l ≠ [] := by intro h0; subst h0; cases h
+  rw [← dropLast_append_getLast! hne] at h
+  simpa using h
+
+theorem toStr_infix_joinParts (sep sep2 lastSep : RT) {p : RT} {parts : List RT} (h : p ∈ parts) :
+    toStr p <:+: toStr (joinParts sep sep2 lastSep parts) := by
+  by_cases ht : truthy p = true
+  · have hp : p ∈ parts.filter truthy := List.mem_filter.2 ⟨h, ht⟩
+    unfold joinParts
+    generalize parts.filter truthy = ps at hp
+    simp only
+    split
+    · exact toStr_infix_mk _ hp
+    · split
+      · exact toStr_infix_join _ hp
+      · rcases mem_dropLast_or_getLast! hp with h1 | h1
+        · exact (toStr_infix_join (mk .text [sep]) h1).trans
+            (toStr_infix_join (mk .text [lastSep]) (p := RT.join (mk .text [sep]) ps.dropLast) (by simp))
+        · rw [h1]; exact toStr_infix_join _ (by simp)
+  · rw [toStr_nil_of_falsy (by simpa using ht)]; exact List.nil_infix
+
+theorem toStr_infix_togetherParts (lt : Bool) {p : RT} {parts : List RT} (h : p ∈ parts) :
+    toStr p <:+: toStr (togetherParts lt parts) := by
+  by_cases ht : truthy p = true
+  · have hp : p ∈ parts.filter truthy := List.mem_filter.2 ⟨h, ht⟩
+    unfold togetherParts
+    generalize parts.filter truthy = ps at hp
+    simp only
+    split
+    · cases hp
+    · rename_i p0 rest
+      split
+      · exact toStr_infix_join _ hp
+      · rename_i hlen
+        rcases mem_dropLast_or_getLast! hp with h1 | h1
+        · have hrest : rest ≠ [] := by intro h0; subst h0; simp at hlen
+          have hd : (p0 :: rest).dropLast = p0 :: rest.dropLast := by
+            cases rest with
+            | nil => exact absurd rfl hrest
+            | cons y r => rfl
+          rw [hd] at h1
+          rcases List.mem_cons.1 h1 with rfl | h1
+          · exact toStr_infix_mk _ (by simp)
+          · exact (toStr_infix_join space h1).trans (toStr_infix_mk _ (by simp))
+        · rw [h1]; exact toStr_infix_mk _ (by simp)
+  · rw [toStr_nil_of_falsy (by simpa using ht)]; exact List.nil_infix
+
+theorem toStr_flat_append (a b : Flat) : Flat.toStr (a ++ b) = Flat.toStr a ++ Flat.toStr b := by
+  simp [Flat.toStr]
+
+theorem lowerC_upperC' (c : Char) : lowerC (upperC c) = lowerC c := Char.toLower_toUpper_eq_toLower c
+
+theorem lower_toStr_mapCase (f : Char → Char) (hf : ∀ c, lowerC (f c) = lowerC c) (s : Flat) :
+    lower (Flat.toStr (Flat.mapCase f s)) = lower (Flat.toStr s) := by
+  induction s with
+  | nil => rfl
+  | cons x s ih =>
+    obtain ⟨a, st⟩ := x
+    have hc : Flat.mapCase f ((a, st) :: s) = Flat.mapCase f [(a, st)] ++ Flat.mapCase f s := by
+      simp [Flat.mapCase]
+    have hc2 : ((a, st) :: s : Flat) = [(a, st)] ++ s := rfl
+    rw [hc, hc2, toStr_flat_append, toStr_flat_append, lower_append, lower_append, ih]
+    congr 1
+    cases a with
+    | sym n => rfl
+    | ch c =>
+      simp only [Flat.mapCase, List.map_cons, List.map_nil]
+      split
+      · rfl
+      · simp [Flat.toStr, hf]
+
+theorem lower_toStr_lowerT (t : RT) : lower (toStr (lowerT t)) = lower (toStr t) := by
+  rw [← toStr_sem (lowerT t) [], sem_lowerT, lower_toStr_mapCase _ lowerC_idem, toStr_sem]
+
+theorem lower_toStr_capitalize (t : RT) : lower (toStr (capitalize t)) = lower (toStr t) := by
+  rw [← toStr_sem (capitalize t) [], ← toStr_sem t []]
+  rcases sem_capitalize t with h | h
+  · rw [h]
+  · rw [h, toStr_flat_append, lower_append, lower_toStr_mapCase _ lowerC_upperC',
+      lower_toStr_mapCase _ lowerC_idem, ← lower_append, ← toStr_flat_append, take_one_append_drop_one]
+
+theorem lower_toStr_capfirst (t : RT) : lower (toStr (capfirst t)) = lower (toStr t) := by
+  rw [← toStr_sem (capfirst t) [], ← toStr_sem t []]
+  rcases sem_capfirst t with h | h
+  · rw [h]
+  · rw [h, toStr_flat_append, lower_append, lower_toStr_mapCase _ lowerC_upperC',
+      ← lower_append, ← toStr_flat_append, take_one_append_drop_one]
+
+theorem toStr_prefix_addPeriodT (t : RT) : toStr t <+: toStr (addPeriodT t) := by
+  unfold addPeriodT RT.addPeriod
+  split
+  · rw [← toStr_sem t [], ← toStr_sem (append t periodStr) []]
+    cases t with
+    | str s => simp only [append, sem_add, toStr_flat_append]; exact List.prefix_append _ _
+    | sym n => simp only [append, sem_add, toStr_flat_append]; exact List.prefix_append _ _
+    | node k ps => rw [sem_append_node, toStr_flat_append]; exact List.prefix_append _ _
+  · exact List.prefix_rfl
+
+theorem Spec.Covers.of_infix {cc : Bool} {a b c : Str} (h : Covers cc a b) (hbc : b <:+: c) : Covers cc a c := by
+  unfold Covers at *
+  split
+  · rename_i hcc; rw [if_pos hcc] at h; exact h.trans (hbc.map _)
+  · rename_i hcc; rw [if_neg hcc] at h; exact h.trans hbc
+
+theorem Spec.Covers.to_lower {cc : Bool} {a b : Str} (h : Covers cc a b) : Covers true a b := by
+  unfold Covers at *
+  rw [if_pos rfl]
+  split at h
+  · exact h
+  · exact h.map _
+
+theorem Spec.Covers.lower_congr {a b c : Str} (h : Covers true a b) (hbc : lower b = lower c) : Covers true a c := by
+  unfold Covers at *
+  rw [if_pos rfl] at *
+  rw [← hbc]; exact h
+
+theorem Spec.Covers.refl (a : Str) : Covers false a a := by simp [Covers]
+
+theorem sentenceText_covers {cc : Bool} {a : Str} (cf cap ap : Bool) (sep : RT) (parts : List RT)
+    (h : Covers cc a (toStr (joinParts sep sep sep parts))) :
+    Covers (cc || cf || cap) a (toStr (sentenceText cf cap ap sep parts)) := by
+  simp only [sentenceText]
+  generalize joinParts sep sep sep parts = x at h
+  have hap : ∀ (c : Bool) (y : RT), Covers c a (toStr y) → Covers c a (toStr (if ap = true then addPeriodT y else y)) := by
+    intro c y hy
+    split
+    · exact hy.of_infix (toStr_prefix_addPeriodT y).isInfix
+    · exact hy
+  cases cf with
+  | false =>
+    cases cap with
+    | false => simpa using hap cc x h
+    | true =>
+      simp only [Bool.or_true, if_true, Bool.false_eq_true, if_false]
+      exact hap true _ (h.to_lower.lower_congr (lower_toStr_capitalize x).symm)
+  | true =>
+    simp only [Bool.or_true, Bool.true_or, if_true]
+    apply hap true
+    have h1 : Covers true a (toStr (capfirst x)) := h.to_lower.lower_congr (lower_toStr_capfirst x).symm
+    split
+    · exact h1.lower_congr (lower_toStr_capitalize _).symm
+    · exact h1
+
+/-- the value of the field occurrence `o` is defined and occurs in `r` -/
+def CovOK (ctx : Ctx) (o : Occ) (r : RT) : Prop :=
+  ∃ val, fieldValue ctx o = some val ∧ Covers o.caseChanged (toStr val) (toStr r)
+
+theorem CovOK.of_infix {ctx : Ctx} {o : Occ} {p r : RT} (h : CovOK ctx o p) (hpr : toStr p <:+: toStr r) :
+    CovOK ctx o r := by
+  obtain ⟨val, h1, h2⟩ := h
+  exact ⟨val, h1, h2.of_infix hpr⟩
+
+theorem eval_coverage (ctx : Ctx) : ∀ fuel,
+    (∀ t r, eval fuel ctx t = .ok r → ∀ o ∈ printed fuel ctx t, CovOK ctx o r) ∧
+    (∀ ts rs, evalList fuel ctx ts = .ok rs → ∀ o ∈ printedL fuel ctx ts, ∃ r ∈ rs, CovOK ctx o r) ∧
+    (∀ ts r, evalFirst fuel ctx ts = .ok r → ∀ o ∈ printedF fuel ctx ts, CovOK ctx o r) := by
+  intro fuel
+  induction fuel with
+  | zero => refine ⟨?_, ?_, ?_⟩ <;> intro t r h <;> simp [eval, evalList, evalFirst] at h
+  | succ n ih =>
+    obtain ⟨ih1, ih2, ih3⟩ := ih
+    refine ⟨?_, ?_, ?_⟩
+    · intro t r h o ho
+      cases t with
+      | lit x => simp [printed] at ho
+      | raw s => simp [printed] at ho
+      | join s s2 ls cs =>
+        simp only [eval] at h
+        split at h
+        · cases h
+        · rename_i parts hp
+          simp only [Except.ok.injEq] at h; subst h
+          obtain ⟨p, hpm, hc⟩ := ih2 cs parts hp o (by simpa [printed] using ho)
+          exact hc.of_infix (toStr_infix_joinParts _ _ _ hpm)
+      | together lt cs =>
+        simp only [eval] at h
+        split at h
+        · cases h
+        · rename_i parts hp
+          simp only [Except.ok.injEq] at h; subst h
+          obtain ⟨p, hpm, hc⟩ := ih2 cs parts hp o (by simpa [printed] using ho)
+          exact hc.of_infix (toStr_infix_togetherParts _ hpm)
+      | sentence cf cap ap sep cs =>
+        rw [eval_sentence] at h
+        split at h
+        · cases h
+        · rename_i parts hp
+          simp only [Except.ok.injEq] at h; subst h
+          simp only [printed, List.mem_map] at ho
+          obtain ⟨o', ho', rfl⟩ := ho
+          obtain ⟨p, hpm, val, hv, hc⟩ := ih2 cs parts hp o' ho'
+          refine ⟨val, by simpa [fieldValue] using hv, ?_⟩
+          exact sentenceText_covers cf cap ap sep parts (hc.of_infix (toStr_infix_joinParts _ _ _ hpm))
+      | field name fn raw =>
+        simp only [printed, List.mem_singleton] at ho; subst ho
+        simp only [eval] at h
+        split at h
+        · cases h
+        · rename_i v hv
+          split at h
+          · rename_i hraw
+            simp only [Except.ok.injEq] at h; subst h
+            exact ⟨_, by simp [fieldValue, hv, hraw], Covers.refl _⟩
+          · rename_i hraw
+            split at h
+            · cases h
+            · rename_i x hx
+              simp only [Except.ok.injEq] at h; subst h
+              exact ⟨_, by simp [fieldValue, hv, hraw, hx], Covers.refl _⟩
+      | names role s s2 ls =>
+        simp only [eval] at h
+        split at h
+        · cases h
+        · rename_i r' ts hf
+          split at h
+          · cases h
+          · rename_i parts hp
+            simp only [Except.ok.injEq] at h; subst h
+            simp only [printed, hf] at ho
+            obtain ⟨p, hpm, hc⟩ := ih2 ts parts hp o ho
+            exact hc.of_infix (toStr_infix_joinParts _ _ _ hpm)
+      | optional cs =>
+        simp only [eval] at h
+        split at h
+        · rename_i f hf; simp [printed, hf] at ho
+        · rename_i e hne hf; simp [printed, hf] at ho
+        · rename_i parts hp
+          simp only [Except.ok.injEq] at h; subst h
+          simp only [printed, hp] at ho
+          obtain ⟨p, hpm, hc⟩ := ih2 cs parts hp o ho
+          exact hc.of_infix (toStr_infix_mk _ hpm)
+      | firstOf cs =>
+        simp only [eval] at h
+        exact ih3 cs r h o (by simpa [printed] using ho)
+      | tag name cs =>
+        simp only [eval] at h
+        split at h
+        · cases h
+        · rename_i parts hp
+          simp only [Except.ok.injEq] at h; subst h
+          obtain ⟨p, hpm, hc⟩ := ih2 cs parts hp o (by simpa [printed] using ho)
+          exact hc.of_infix (toStr_infix_mk _ hpm)
+      | href url ext cs =>
+        rw [eval_href] at h
+        split at h
+        · cases h
+        · rename_i parts hp
+          split at h
+          · cases h
+          · simp only [Except.ok.injEq] at h; subst h
+            obtain ⟨p, hpm, hc⟩ := ih2 cs parts hp o (by simpa [printed] using ho)
+            exact hc.of_infix (toStr_infix_mk _ hpm)
+      | namePart before tie abbr cs =>
+        rw [eval_namePart] at h
+        split at h
+        · cases h
+        · rename_i children hp
+          simp only [Except.ok.injEq] at h; subst h
+          cases abbr with
+          | true => simp [printed] at ho
+          | false =>
+            simp only [printed, Bool.false_eq_true, if_false] at ho
+            obtain ⟨p, hpm, hc⟩ := ih2 cs children hp o ho
+            have hin := toStr_infix_togetherParts true hpm
+            refine hc.of_infix (hin.trans ?_)
+            simp only [namePartText, Bool.false_eq_true, if_false]
+            split
+            · rename_i hfalsy
+              rw [toStr_nil_of_falsy (by simpa using hfalsy)]; exact List.nil_infix
+            · split
+              · exact toStr_infix_mk _ (by simp)
+              · exact toStr_infix_mk _ (by simp)
+    · intro ts rs h o ho
+      cases ts with
+      | nil => simp [printedL] at ho
+      | cons t ts =>
+        simp only [evalList] at h
+        split at h
+        · cases h
+        · rename_i r hr
+          split at h
+          · cases h
+          · rename_i rs' hrs
+            simp only [Except.ok.injEq] at h; subst h
+            simp only [printedL, List.mem_append] at ho
+            rcases ho with ho | ho
+            · exact ⟨r, by simp, ih1 t r hr o ho⟩
+            · obtain ⟨p, hpm, hc⟩ := ih2 ts rs' hrs o ho
+              exact ⟨p, List.mem_cons_of_mem _ hpm, hc⟩
+    · intro ts r h o ho
+      cases ts with
+      | nil => simp [printedF] at ho
+      | cons t ts =>
+        simp only [evalFirst] at h
+        split at h
+        · cases h
+        · rename_i r' hr
+          simp only [printedF, hr] at ho
+          split at h
+          · rename_i htr
+            simp only [Except.ok.injEq] at h; subst h
+            rw [if_pos htr] at ho
+            exact ih1 t _ hr o ho
+          · rename_i htr
+            rw [if_neg htr] at ho
+            exact ih3 ts r h o ho
+
+theorem fieldValue_text {ctx : Ctx} {o : Occ} {val : RT} (h : fieldValue ctx o = some val) :
+    ∃ v, ctx.entry.findField o.name ctx.db = some v ∧
+      (o.raw = true → o.fn = .none → toStr val = v) ∧
+      (o.raw = false → o.fn = .none → toStr val = stripBraces v) ∧
+      (o.raw = false → (o.fn = .lower ∨ o.fn = .capitalize) → lower (toStr val) = lower (stripBraces v)) := by
+  unfold fieldValue at h
+  split at h
+  · cases h
+  · rename_i v hv
+    refine ⟨v, hv, ?_, ?_, ?_⟩
+    · intro hr hf
+      rw [if_pos hr] at h
+      simp only [Option.some.injEq] at h; subst h
+      rw [hf]; rfl
+    · intro hr hf
+      rw [if_neg (by simp [hr])] at h
+      split at h
+      · cases h
+      · rename_i x hx
+        simp only [Option.some.injEq] at h; subst h
+        rw [hf]; exact toStr_fromLatex hx
+    · intro hr hf
+      rw [if_neg (by simp [hr])] at h
+      split at h
+      · cases h
+      · rename_i x hx
+        simp only [Option.some.injEq] at h; subst h
+        rcases hf with hf | hf
+        · rw [hf]; simp only [applyFn]; rw [lower_toStr_lowerT, toStr_fromLatex hx]
+        · rw [hf]; simp only [applyFn]; rw [lower_toStr_capitalize, toStr_fromLatex hx]
+
+/-- the last character of the plain text of a terminated, non-empty rich text -/
+theorem toStr_of_terminated {r : RT} (h : Flat.terminated Gen.terminators (sem [] r) = true) :
+    ∃ pre c, toStr r = pre ++ [c] ∧ [c] ∈ Gen.terminators := by
+  rw [← toStr_sem r []]
+  generalize sem [] r = s at h
+  unfold Flat.terminated at h
+  split at h
+  · rename_i c st hl
+    obtain ⟨ys, rfl⟩ := List.getLast?_eq_some_iff.1 hl
+    exact ⟨Flat.toStr ys, c, by rw [toStr_flat_append]; rfl, by simpa using h⟩
+  · cases h
+
+/-- every formatted entry is the value of its entry's template -/
+theorem formatEntries_ok_mem (db : BibData) (items : Str → Option Item) :
+    ∀ (l : List (Str × PEntry)) (fs : List Formatted), formatEntries db items l = .ok fs →
+      ∀ f ∈ fs, ∃ label e it, (label, e) ∈ l ∧ items e.key = some it ∧ f.key = e.key ∧ f.label = label ∧
+        eval evalFuel { entry := e.toEntry, db := some db, personTemplates := it.personTemplates } it.template
+          = .ok f.text := by
+  intro l
+  induction l with
+  | nil => intro fs h; simp only [formatEntries, Except.ok.injEq] at h; subst h; simp
+  | cons p l ih =>
+    intro fs h
+    obtain ⟨label, e⟩ := p
+    simp only [formatEntries] at h
+    split at h
+    · cases h
+    · rename_i it hit
+      split at h
+      · cases h
+      · cases h
+      · cases h
+      · rename_i text htext
+        split at h
+        · cases h
+        · rename_i l' hl'
+          simp only [Except.ok.injEq] at h
+          subst h
+          intro f hf
+          rcases List.mem_cons.1 hf with rfl | hf
+          · exact ⟨label, e, it, by simp, hit, rfl, rfl, htext⟩
+          · obtain ⟨label', e', it', hm, h1, h2, h3, h4⟩ := ih l' hl' f hf
+            exact ⟨label', e', it', List.mem_cons_of_mem _ hm, h1, h2, h3, h4⟩
+
+theorem formatBibliography_ok_mem {es : List PEntry} {items : Str → Option Item} {cites : List Str} {mc : Int}
+    {sorting : Sorting} {lab : Labels} {rep : List Report} {fs : List Formatted}
+    (h : formatBibliography es items cites mc sorting lab = (rep, .ok fs)) :
+    ∀ f ∈ fs, ∃ e ∈ resolvedEntries es cites mc, ∃ it, items e.key = some it ∧ f.key = e.key ∧
+      eval evalFuel (ctxOf es e it) it.template = .ok f.text := by
+  rw [formatBibliography_eq] at h
+  split at h
+  · simp only [Prod.mk.injEq] at h; cases h.2
+  · rename_i ls hls
+    simp only [Prod.mk.injEq] at h
+    intro f hf
+    obtain ⟨label, e, it, hm, h1, h2, -, h4⟩ := formatEntries_ok_mem _ _ _ _ h.2 f hf
+    have hin : e ∈ sortEntries sorting (resolvedEntries es cites mc) := (List.of_mem_zip hm).2
+    have hmem : e ∈ resolvedEntries es cites mc := by
+      cases sorting with
+      | none => exact hin
+      | authorYearTitle => exact (sortBy_perm _ _).mem_iff.1 hin
+    exact ⟨e, hmem, it, h1, h2, h4⟩
+
 end Pybtex.Tmpl
